@@ -185,7 +185,7 @@ func checkWirePoison(h *History) {
 
 func startFaultProperty(kind string) string {
 	switch kind {
-	case "dup_tag", "dup_set_tag", "unknown_upstream_tag", "unknown_domain_tag", "missing_tag", "missing_addr":
+	case "dup_tag", "dup_tag_quic", "dup_set_tag", "unknown_upstream_tag", "unknown_domain_tag", "missing_tag", "missing_addr":
 		return "C10"
 	}
 	return "C18"
